@@ -595,6 +595,9 @@ def session_cases(draw):
         case['msgs'] = list(msgs)
         case['msgs'].insert(draw(st.integers(0, len(msgs))), 'big')
         case['cuts'] = sorted(set(cuts + [c + 4000 for c in cuts[:3]]))
+        if all(case['ext']) and bad and bad['kind'] == 'long':
+            # no header can name more than 65535 octets: with extended messages negotiated there is no "too long"
+            case['bad'] = dict(bad, kind='short')
     return case
 
 
